@@ -1,7 +1,7 @@
 ------------------------------- MODULE JudgeMisc -------------------------------
 (* Named clauses for validation (C08), text formats (C17-C19), artifacts (C20) and the wire format (C07). *)
-EXTENDS Validate, JudgeText
-MiscEvents == {"validate", "pvalidate", "typed"} \cup TextEvents
+EXTENDS Validate, JudgeArtifact
+MiscEvents == {"validate", "pvalidate", "typed"} \cup TextEvents \cup ArtifactEvents
 ClausesValidate(e) ==
   [ no_panic |-> NoPanic(e),
     validate_iff |-> Ok(e) <=> ValidateOK(e.in.inst) ]
@@ -28,4 +28,5 @@ ClausesMisc(e) ==
     [] e.ev = "pvalidate" -> ClausesPValidate(e)
     [] e.ev = "typed" -> ClausesTyped(e)
     [] e.ev \in TextEvents -> ClausesText(e)
+    [] e.ev = "artifact" -> ClausesArtifact(e)
 =============================================================================
